@@ -621,6 +621,28 @@ func (s *Sim) resolveBlocked() bool {
 	}
 	// application-level waits: end the calls
 	for _, rs := range s.rpcs {
+		if rs.started && rs.ctx.Err() == nil && rs.r.RawClient && !rs.clientEnded && rs.handlerDone >= rs.handlerEntered {
+			// C11: an HTTP client that has sent its request (or, with Expect:
+			// 100-continue, its head, and has meanwhile been given a final
+			// status) reads the reply to its end; no handler is running, nothing
+			// is in flight, no timer is pending - and the reply is not complete
+			expects := "no-expect"
+			for _, op := range rs.r.Client {
+				if op.Raw != nil {
+					for _, kv := range op.Raw.Hdrs {
+						if kv.K == "Expect" {
+							expects = "expect-100-continue"
+						}
+					}
+				}
+			}
+			what := "refused"
+			if rs.handlerEntered > 0 {
+				what = "handler-returned"
+			}
+			s.violate("C11", fmt.Sprintf("C11|%s|%s|reply-never-finished|%s|%s", rs.r.Transport, kindNames[rs.r.Kind], what, expects), rs.r.ID,
+				"rpc%d %s %s: the HTTP client is still waiting for the end of the reply, no handler is running (entered %d, returned %d) and nothing else can happen: the server never finishes its answer (%s)", rs.r.ID, rs.r.Transport, kindNames[rs.r.Kind], rs.handlerEntered, rs.handlerDone, expects)
+		}
 		if rs.started && rs.ctx.Err() == nil && (!rs.clientEnded || rs.handlerDone < rs.handlerEntered) {
 			s.tracef("harness cancels rpc%d (application-level wait)", rs.r.ID)
 			s.endCtx(rs, "harness")
